@@ -508,6 +508,13 @@ pub enum MOp {
     AppendRetry(usize),
     /// three attempts to create and fill a large stream, errors ignored
     CreateRetry,
+    /// two handles on the same stream: one shrinks it to 10 bytes, the other (opened before) appends at
+    /// what it believes is the end and flushes; then the first extends by 300 bytes and the second
+    /// overwrites the start and flushes
+    TwoHandles(usize),
+    /// a handle with unflushed data whose stream is removed; a new small stream is created and filled
+    /// (it may reuse the directory slot); then the stale handle is flushed, written again and dropped
+    RemoveHeld(usize),
 }
 
 /// Mutation alphabet for a file with `ns` streams and `nd` storages (by walk index).
@@ -520,6 +527,11 @@ pub fn mutation_alphabet(ns: usize, nd: usize) -> Vec<MOp> {
         v.push(MOp::SetLen(i, 0));
         v.push(MOp::SetLen(i, 100));
         v.push(MOp::SetLen(i, 5000));
+        if i < 2 {
+            v.push(MOp::SetLen(i, u64::MAX));
+            v.push(MOp::TwoHandles(i));
+            v.push(MOp::RemoveHeld(i));
+        }
         v.push(MOp::RemoveStream(i));
         v.push(MOp::SeekAround(i));
         v.push(MOp::AppendRetry(i));
@@ -624,6 +636,54 @@ fn do_mop(l: &mut Live, op: &MOp, streams: &[std::path::PathBuf], storages: &[st
         MOp::RemoveStream(i) => {
             if let Some(p) = streams.get(*i) {
                 let _ = l.comp.remove_stream(p);
+            }
+        }
+        MOp::TwoHandles(i) => {
+            if let Some(p) = streams.get(*i) {
+                if let (Ok(a), Ok(b)) = (l.comp.open_stream(p), l.comp.open_stream(p)) {
+                    let mut a = ops::NoDropOnPanic::new(a);
+                    let mut b = ops::NoDropOnPanic::new(b);
+                    let _ = a.set_len(10);
+                    let _ = a.flush();
+                    // (a damaged entry may claim a huge length: appending there would legitimately create a
+                    // huge file, which is not what this script is after)
+                    if b.len() <= (1 << 20) && b.seek(SeekFrom::End(0)).is_ok() {
+                        let _ = b.write_all(&data(20));
+                    }
+                    let _ = b.flush();
+                    if a.seek(SeekFrom::End(0)).is_ok() {
+                        let _ = a.write_all(&data(300));
+                    }
+                    let _ = a.flush();
+                    if b.seek(SeekFrom::Start(0)).is_ok() {
+                        let _ = b.write_all(&data(10));
+                    }
+                    let _ = b.flush();
+                    let mut sink = Vec::new();
+                    let _ = a.seek(SeekFrom::Start(0));
+                    let _ = a.read_to_end(&mut sink);
+                }
+            }
+        }
+        MOp::RemoveHeld(i) => {
+            if let Some(p) = streams.get(*i) {
+                if let Ok(h) = l.comp.open_stream(p) {
+                    let mut h = ops::NoDropOnPanic::new(h);
+                    let _ = h.write_all(&data(10));
+                    let _ = l.comp.remove_stream(p);
+                    if let Ok(n) = l.comp.create_stream("/__reuse") {
+                        let mut n = ops::NoDropOnPanic::new(n);
+                        let _ = n.write_all(&data(50));
+                        let _ = n.flush();
+                    }
+                    let _ = h.flush();
+                    let _ = h.write_all(&data(5000));
+                    let _ = h.flush();
+                    let _ = h.set_len(3);
+                    let mut sink = Vec::new();
+                    let _ = h.seek(SeekFrom::Start(0));
+                    let _ = h.read_to_end(&mut sink);
+                }
             }
         }
         MOp::RemoveStorage(i) => {
